@@ -1067,26 +1067,36 @@ def gen_derivation(rng, at, live):
     return {"op": "parent", "on": on, "args": []}
 
 
-def equal_partners(slots, i):
-    """Other live URL objects that compare equal to slots[i] (e.g. 'http://h' and 'http://h/':
-    equal by ==/hash, yet different str(), state and ordering)."""
+def equal_partners(slots, i, respelled=False):
+    """Other live URL objects that compare equal to slots[i].  respelled=True: only those whose
+    stored parts differ ('http://h' vs 'http://h/': equal by ==/hash, yet different str(), state
+    and ordering) -- twins and cache duplicates of the same spelling are excluded."""
     out = []
     if slots is None or i is None or i >= len(slots) or not is_url(slots[i]):
         return out
     a = slots[i]
+    sa = shallow(a)
     for j, b in enumerate(slots):
         if j != i and is_url(b) and b is not a:
             try:
-                if b == a:
+                if b == a and (not respelled or shallow(b) != sa):
                     out.append(j)
             except Exception:  # noqa
                 pass
     return out
 
 
+def partners(rng, slots, i):
+    """Prefer a differently spelled equal URL, fall back to any equal one."""
+    r = equal_partners(slots, i, respelled=True)
+    if r and rng.random() < 0.75:
+        return r
+    return r or equal_partners(slots, i)
+
+
 def _pick_other(rng, live, slots, on, p_equal=0.5):
     if slots is not None and rng.random() < p_equal:
-        eq = equal_partners(slots, on)
+        eq = partners(rng, slots, on)
         if eq:
             return rng.choice(eq)
     return rng.choice(live)
@@ -1223,7 +1233,7 @@ def gen_variant(rng, ops, candidates, slots=None):
         return None
     p_swap = 0.3
     if slots is not None and rng.random() < 0.6:
-        rich = [i for i in candidates if any(equal_partners(slots, ops[i].get(k)) for k in ("on", "other") if ops[i].get(k) is not None)]
+        rich = [i for i in candidates if any(equal_partners(slots, ops[i].get(k), True) for k in ("on", "other") if ops[i].get(k) is not None)]
         if rich:
             candidates = rich
             p_swap = 0.8  # same operation, equal-but-differently-spelled operand
@@ -1234,7 +1244,7 @@ def gen_variant(rng, ops, candidates, slots=None):
     if slots is not None and rng.random() < p_swap:
         for key in ("other", "on"):
             if op.get(key) is not None:
-                eq = equal_partners(slots, op[key])
+                eq = partners(rng, slots, op[key])
                 if eq:
                     op[key] = rng.choice(eq)
                     return op
